@@ -142,6 +142,28 @@ theorem rsum_append (l₁ l₂ : List Rat) : rsum (l₁ ++ l₂) = rsum l₁ + r
 
 theorem rsum_singleton (x : Rat) : rsum [x] = x := by simp [rsum, Rat.add_zero]
 
+theorem rsum_perm (l₁ l₂ : List Rat) (h : l₁.Perm l₂) : rsum l₁ = rsum l₂ := by
+  induction h with
+  | nil => rfl
+  | cons x _ ih => simp [rsum, ih]
+  | swap x y l =>
+    simp only [rsum]
+    rw [← Rat.add_assoc, ← Rat.add_assoc, Rat.add_comm y x]
+  | trans _ _ ih₁ ih₂ => exact ih₁.trans ih₂
+
+theorem any_perm (l₁ l₂ : List Rat) (p : Rat → Bool) (h : l₁.Perm l₂) : l₁.any p = l₂.any p := by
+  cases h1 : l₁.any p with
+  | true =>
+    rw [List.any_eq_true] at h1
+    obtain ⟨x, hx, hpx⟩ := h1
+    exact (List.any_eq_true.mpr ⟨x, h.mem_iff.mp hx, hpx⟩).symm
+  | false =>
+    rw [List.any_eq_false] at h1
+    symm
+    rw [List.any_eq_false]
+    intro x hx
+    exact h1 x (h.mem_iff.mpr hx)
+
 /-! ### filters of duplicate-free lists -/
 
 theorem filter_eq_of_nodup [DecidableEq α] (l : List α) (hl : l.Nodup) (x : α) :
